@@ -95,3 +95,30 @@ CHECKS["C16"] = {
         "unbuffered channels are modelled as 1-slot buffers (the sender does not wait for the receiver)",
     ],
 }
+
+# ---------------------------------------------------------------------------------------------------------------
+CHECKS["C17"] = {
+    "pkg": "./core/aggsigdb",
+    "parallel": 5,
+    "quick": [
+        {"harness": "VerifC17V1", "params": {"k": [3, 4]}, "prune": 1000},
+        {"harness": "VerifC17V2Seq", "params": {}},
+        {"harness": "VerifC17V2Wake", "params": {"samekey": [0, 1]}},
+    ],
+    "thorough": [
+        {"harness": "VerifC17V1", "params": {"k": [3, 4, 5, 6]}, "prune": 1000, "timeout_ms": 600000, "case_timeout_s": 14000},
+        {"harness": "VerifC17V2Seq", "params": {}, "cross": True},
+        {"harness": "VerifC17V2Wake", "params": {"samekey": [0, 1]}, "cross": True},
+    ],
+    "bounds": {
+        "quick": "v1 (MemDB actor): all sequences of k<=4 events, each a write / blocking read / reader cancellation / duty expiry with symbolic kind, key (2 duties x 2 validators) and data; v2 (MemDBV2): store/re-store/await sequence with symbolic data; two readers blocked on the same or on different keys followed by one Store of both keys",
+        "thorough": "v1 up to k=6 events",
+    },
+    "outside": "v1 Store/Await wrappers (clone-on-write, select on ctx/quit); more than two blocked v2 readers; arbitrary pre-emption inside v2's critical sections (sequences of whole critical sections only); wall-clock promptness ('as soon as' = within the same actor step / without a further store)",
+    "assumptions": [
+        "MarshalJSON of the harness SignedData lists all fields; bytes.Equal compared element-wise",
+        "the v1 actor goroutine runs until it blocks before the environment acts again; readers are observed through their response channels",
+        "blocked v2 readers are resumed in LIFO order after the environment's Store (nested resume-once scheme)",
+        "sync.RWMutex modelled as a lock bit; unbuffered channels as 1-slot buffers",
+    ],
+}
